@@ -113,6 +113,15 @@ def run(ctx):
             tid += 1
             trs.append({"tid": tid, "seq": list(var), "ev": [{"q": q, "r": common.fx(v[1])} for q, v in outs.items()]})
     patterning.judge_traces(ctx, trs, need_sqrt=max(len(s) for s in seqs))
+    # a very long sequence (beyond what TLC evaluates here): reply-level relations only, kappa / delta / delta-max
+    big = common.random_sequences(ctx.rng, 1, 2300, 2100)[0]
+    b0 = query(lc, big, ["get_kappa", "get_delta", "get_deltaMax"])
+    ctx.evaluations += 1
+    for name, var in (("reversal", big[::-1]), ("inversion", invert(big, ctx.rng)), ("class-substitution", class_substitute(big, ctx.rng))):
+        bv = query(lc, var, ["get_kappa", "get_delta", "get_deltaMax"])
+        for g in b0:
+            if not same(b0[g], bv[g], name == "class-substitution"):
+                ctx.violation("%s-changes-%s" % (name, g), {"seq": big, "variant": var, "length": len(big)}, expected=b0[g], actual=bv[g])
     ctx.sample({"trace": {"seq": seqs[0], "ev": ["get_kappa", "get_delta", "get_deltaMax", "get_SCD", "get_Omega"]}})
     ctx.assumptions += ["same-class substitutions must give bitwise-equal floats; reversal/inversion within 1e-9",
                         "kappa out of [0,1] through finding K1 is C01's business; here only equality with the spec value is demanded"]
